@@ -224,7 +224,14 @@ func c37Settle(ops []*c37Op, extra []*atomic.Int64, extraDone []*atomic.Bool) bo
 			switch {
 			case op.returned.Load():
 			case op.released.Load():
-				ok = false // on its way out of the wrapped backend
+				// on its way out of the wrapped backend; normally it returns at once, but a defective wrapper may
+				// block it for good (e.g. in ReleaseToken): after a few rounds look at the goroutine itself
+				if spin < 8 {
+					ok = false
+				} else {
+					needDump = true
+					gids = append(gids, op.gid.Load())
+				}
 			case op.parked.Load():
 			default:
 				g := op.gid.Load()
@@ -652,8 +659,10 @@ func TestVerif_C37(t *testing.T) {
 		rec, ok := c37Stress(i, rng, res)
 		note(rec)
 		if !ok {
-			res.Problem("stress run %d did not finish within 60 s", i)
-			return
+			// operations that never return are outside the statement (it limits, it does not promise progress);
+			// the blocked goroutines stay behind, so stop the stress runs here
+			res.Count("stress_run_stuck", 1)
+			break
 		}
 	}
 }
